@@ -230,7 +230,7 @@ def file_cases(draw):
         text += record
         if setting != "none" and (i < n_records - 1 or draw(st.booleans())):
             text += draw(st.sampled_from(DELIMS[setting]))
-    encoding = draw(st.sampled_from(["utf-8", "utf-8", "utf-16", "cp1252", "latin-1"]))
+    encoding = draw(st.sampled_from(["utf-8", "utf-8", "utf-16", "cp1252", "latin-1", "utf-8-sig", "utf-32", "utf-16-le"]))
     if encoding in ("cp1252", "latin-1"):
         text = text.replace("中", "c").replace("€", "E").replace("\ufeff", "F").replace("\u2028", "L").replace("\x85", "N")
     edit = draw(st.sampled_from(["none", "all-deletes", "all-inserts", "all-replaces"]))
